@@ -13,11 +13,13 @@ SV_fin == {0, 1, 2}
 TV_pinf == {0, 1, PINF}
 TV_nan == {0, 1, 3, NAN}
 TV_neg == {-1, 0, 2, PINF}
+TV_nan3 == {0, 1, NAN}
 TV_fin == {0, 1}
 
 MCRowTypes == {s \o t : s \in [1..K -> SVals], t \in [1..NP -> ThVals]}
 
 MCObs == IF K = 1 THEN {<<1>>} ELSE {<<1, 0>>, <<1, 1>>}
+MCObsOne == IF K = 1 THEN {<<1>>} ELSE {<<1, 0>>}
 
 \* integer maps with determinant -1, 1, 2, -2 (and translations)
 MCAffs == IF K = 1 THEN {<< << <<-1>> >>, <<0>> >>, << << <<2>> >>, <<3>> >>, << << <<-2>> >>, <<-1>> >>}
